@@ -19,6 +19,7 @@ import (
 	"github.com/rs/zerolog"
 	"github.com/sirupsen/logrus"
 	"go.uber.org/zap"
+	"math"
 	"strconv"
 	"strings"
 
@@ -879,6 +880,12 @@ func (thisListener *GruleV3ParserListener) ExitIntegerLiteral(ctx *grulev3.Integ
 	receiver, ok := thisListener.Stack.Peek().(ast.IntegerLiteralReceiver)
 	if !ok {
 		thisListener.StopParse = true
+
+		return
+	}
+	if _, isSalience := receiver.(*ast.Salience); isSalience && (lit.Integer < math.MinInt32 || lit.Integer > math.MaxInt32) {
+		thisListener.StopParse = true
+		thisListener.ErrorCallback.AddError(fmt.Errorf("salience %d is out of range", lit.Integer))
 
 		return
 	}
